@@ -128,10 +128,17 @@ _TOL = {}
 def tolerances():
     """tolerances the code passes (read by the translator from the tree under test), as exact Fractions"""
     if not _TOL:
-        info = _ex.read(core.REPO)
-        for k in ("sampledZeroTol", "sampledHitTol", "setHitTol"):
-            _TOL[k] = (Fraction(info[k][0]), Fraction(info[k][1]))
-        _TOL["sampledZeroOnScaled"] = info["sampledZeroOnScaled"]
+        try:
+            info = _ex.read(core.REPO)
+            for k in ("sampledZeroTol", "sampledHitTol", "setHitTol"):
+                _TOL[k] = (Fraction(info[k][0]), Fraction(info[k][1]))
+            _TOL["sampledZeroOnScaled"] = info["sampledZeroOnScaled"]
+        except (_ex.ExtractError, OSError, SyntaxError):
+            # the translator no longer reads the source (already reported as a broken tie by the check):
+            # classify margins with the reference tolerances so that the comparison still runs
+            for k in ("sampledZeroTol", "sampledHitTol", "setHitTol"):
+                _TOL[k] = (REF_RTOL, REF_ATOL)
+            _TOL["sampledZeroOnScaled"] = True
     return _TOL
 
 
